@@ -14,9 +14,10 @@ class Layout:
         self.sparse_ids = r.random() < 0.35
         self.pad_byte = r.choice([0x20, 0x20, 0x00])  # how string cells are padded
         self.extra_blocks = r.choice([0, 0, 1])       # zero blocks between the terminator block and the data
+        self.end_offset0 = r.random() < 0.15          # the chain ends with a next-offset of 0 in its last record (still followed by zeros)
     def describe(self):
-        return "z%d_%s_pb%d_%s_%s_pad%02x_x%d" % (self.lead_zeros, "zp" if self.zero_prologue else "np", self.param_block, self.order,
-                                                "sparse" if self.sparse_ids else "dense", self.pad_byte, self.extra_blocks)
+        return "z%d_%s_pb%d_%s_%s_pad%02x_x%d%s" % (self.lead_zeros, "zp" if self.zero_prologue else "np", self.param_block, self.order,
+                                                "sparse" if self.sparse_ids else "dense", self.pad_byte, self.extra_blocks, "_end0" if self.end_offset0 else "")
 
 def enc_param(gid, name, locked, ptype, dims, values, desc, layout, width_pad=None):
     """ptype: 'C','B','I','F'; values: list of bytes (C), ints (B/I), uint32 bit patterns (F); dims as in the file ([] scalar)"""
@@ -50,6 +51,9 @@ def encode(content, layout, r):
         recs += [rp for p, rp in zip(content["params"], recs_p) if p[0] not in [g[0] for g in content["groups"]]]
     else:
         recs = recs_g + recs_p; r.shuffle(recs)
+    if getattr(layout, "end_offset0", False) and recs:
+        last = bytearray(recs[-1]); n = last[0] if last[0] < 128 else 256 - last[0]
+        last[2 + n:4 + n] = b"\x00\x00"; recs = recs[:-1] + [bytes(last)]
     body = b"".join(recs) + b"\x00"
     plen = 4 + len(body)
     nblocks = (plen + 511) // 512 + layout.extra_blocks
@@ -149,6 +153,13 @@ def gen_content(r, layout, big=False):
             elif ty == "I": vals = [r.choice([0, 1, -1, 32767, -32768, 255, 256, r.randint(-32768, 32767)]) for _ in range(cnt)]
             else: vals = [fbits(r) for _ in range(cnt)]
             params.append((gi, rand_name(r), r.random() < 0.3, ty, dims, vals, rand_name(r, r.choice([0, 0, 5, 127, 128, 255]), False)))
+    # a ladder of descriptions whose lengths grow by one (a reader reusing a buffer sized for the previous string)
+    if r.random() < 0.12 and ids:
+        gi = max(ids) + 1
+        groups.append((gi, b"LADDER", False, rand_name(r, r.choice([127, 128, 129]), False)))
+        L0 = r.choice([126, 199, 249])
+        for k in range(6):
+            params.append((gi, b"L%d" % k, False, "I", [], [k], rand_name(r, min(255, L0 + k), False)))
     ev = [(fbits(r), r.choice([0, 1]), rand_name(r, r.randint(1, 4))) for _ in range(r.choice([0, 0, 1, 3, 18]))]
     header = dict(points=np_, analog_per_frame=nch * nsub, first=first, last=first + nfr - 1 if nfr else first - 1, gap=r.choice([0, 10]),
                   scale=F(-1.0) if r.random() < 0.5 else F(-0.01), subframes=nsub, rate=F(prate), events=ev)
